@@ -330,7 +330,11 @@ class Reader:
         self.consume("=")
         if self.peek == "ID":
             a = self.parse_id()
-            if self.peek in ir.Binop.ops:
+            if self.peek in ir.Binop.ops or (
+                self.peek == "ID"
+                and self.token[1] in ir.Binop.ops
+                and a not in ("load", "cast", "call")
+            ):
                 # Go for binop
                 op = self.consume(self.peek)[1]
                 b = self.parse_id()
